@@ -206,4 +206,48 @@ def eq (k : Kind) (v w : Nat) : Bool := lower (dash k v) == lower (dash k w)
 `str(self.mac).lower() == str(other).lower()` -/
 def eqRaw (k : Kind) (v w : Nat) : Bool := lower (hwStr k.cls v) == lower (hwStr k.cls w)
 
+/-! ### `macaddress.parse(word, MAC, EUI64)` (`MACEUISearch`) and `==` between any two objects -/
+
+/-- `macaddress.parse(word, MAC, EUI64)` as `MACEUISearch.__init__` calls it: `_parse` over both
+classes picks the class, `cls(address)` builds the object (its `int` branch raises `ValueError`
+for `address >= 1 << size`).  The answer is the kind (`isinstance(tmp, macaddress.MAC)` /
+`EUI64`) and the address. -/
+def classify (w : Str) : Except Err (Kind × Nat) :=
+  match parse [eui48, eui64] w with
+  | .error e => .error e
+  | .ok (v, c) =>
+    if v ≥ 1 <<< c.size then .error .valueError
+    else if c = eui48 then .ok (.mac, v)
+    else if c = eui64 then .ok (.eui64, v)
+    else .error .valueError                          -- unreachable: `_parse` returns one of the two classes
+
+/-- an object that can stand on either side of `==`: `MACObj` / `EUI64Obj` (`wrapped`) or a
+plain `macaddress.EUI48` / `EUI64` (`plain`), with its `_address` -/
+inductive Obj
+  | wrapped (k : Kind) (v : Nat)
+  | plain (k : Kind) (v : Nat)
+deriving Repr, DecidableEq
+
+def Obj.kind : Obj → Kind
+  | .wrapped k _ => k
+  | .plain k _ => k
+
+def Obj.value : Obj → Nat
+  | .wrapped _ v => v
+  | .plain _ v => v
+
+/-- `a == b` as Python evaluates it.
+* `MACObj.__eq__` / `EUI64Obj.__eq__`: same wrapper class → lower-cased dash texts; a plain object
+  of the class it wraps (`isinstance(other, EUI48)` resp. `EUI64`) → lower-cased canonical texts;
+  anything else (in particular an object of the other size) → `False`.
+* plain on the left, wrapper of the same size on the right: the wrapper is a subclass that overrides
+  `__eq__`, so Python calls the wrapper's reflected `__eq__` first — the same comparison.
+* otherwise `HWAddress.__eq__`: `type(self) == type(other) and int(self) == int(other)`; a plain
+  object and a wrapper are never of the same type. -/
+def objEq : Obj → Obj → Bool
+  | .wrapped k v, .wrapped k' w => if k = k' then eq k v w else false
+  | .wrapped k v, .plain k' w => if k = k' then eqRaw k v w else false
+  | .plain k v, .wrapped k' w => if k = k' then eqRaw k' w v else false
+  | .plain k v, .plain k' w => k = k' && v = w
+
 end Ccp.Mac
